@@ -335,9 +335,9 @@ fn do_import(path: &std::path::Path, via_lib: bool) -> ImportRes {
 fn fired_split(f: &BTreeMap<&'static str, u64>) -> (u64, u64, u64, u64) {
     let g = |k: &str| f.get(k).copied().unwrap_or(0);
     let hard_w = g("write_err") + g("write_err_sticky") + g("enospc") + g("open_write_err") + g("write_after_sticky");
-    let soft_w = g("short_write") + g("write_eintr") + g("enospc_short");
+    let soft_w = g("short_write") + g("write_eintr") + g("enospc_short") + g("open_eintr");
     let hard_r = g("read_err") + g("read_err_sticky") + g("open_read_err");
-    let soft_r = g("short_read") + g("read_eintr");
+    let soft_r = g("short_read") + g("read_eintr") + g("open_eintr");
     (hard_w, soft_w, hard_r, soft_r)
 }
 
@@ -711,7 +711,7 @@ pub fn tier(t: &str) -> Tier {
     if t == "thorough" {
         Tier { sweep: 240, history: 20_000, seeded: 40_000, corrupt: 60_000, text: 40_000, s5: 2_000 }
     } else {
-        Tier { sweep: 32, history: 2_000, seeded: 4_000, corrupt: 6_000, text: 4_000, s5: 100 }
+        Tier { sweep: 16, history: 2_000, seeded: 4_000, corrupt: 6_000, text: 4_000, s5: 100 }
     }
 }
 
@@ -807,7 +807,17 @@ fn draw_read_plan(p: &mut Prng, len: usize) -> Plan {
         }
     }
     if p.chance(1, 4) {
-        plan.read.insert(p.below(nreads + 1), if p.chance(1, 2) { Act::Err(libc::EIO) } else { Act::ErrSticky(libc::EIO) });
+        if p.chance(1, 2) {
+            // chunked reading with the error somewhere in the middle of the file
+            let c = *p.pick(&[16u64, 64, 256]);
+            let j = p.below(len as u64 / c + 2);
+            for k in 0..j {
+                plan.read.insert(k, Act::Short(c as usize));
+            }
+            plan.read.insert(j, Act::Err(libc::EIO));
+        } else {
+            plan.read.insert(p.below(nreads + 1), if p.chance(1, 2) { Act::Err(libc::EIO) } else { Act::ErrSticky(libc::EIO) });
+        }
     }
     if p.chance(1, 25) {
         plan.open.insert(0, *p.pick(OPEN_R_ERRNOS));
@@ -1347,6 +1357,27 @@ fn run_sweep(base: &World, acc: &mut Acc) {
         let mut w = base.clone();
         w.import_plan.open.insert(0, e);
         go(w, acc);
+    }
+    // interrupted opens are retried by std: transparent on both sides
+    {
+        let mut w = base.clone();
+        w.export_plan.open.insert(0, libc::EINTR);
+        w.import_plan.open.insert(0, libc::EINTR);
+        w.import_plan.open.insert(1, libc::EINTR);
+        go(w, acc);
+    }
+    // the reader sees the file in chunks of c bytes and the device fails at chunk j, for every j:
+    // a read error in the middle of the file (not only before its first byte)
+    for c in [1usize, 7, 64] {
+        let nchunks = bytes.len() / c + 2;
+        for j in 0..nchunks {
+            let mut w = base.clone();
+            for k in 0..j {
+                w.import_plan.read.insert(k as u64, Act::Short(c));
+            }
+            w.import_plan.read.insert(j as u64, Act::Err(libc::EIO));
+            go(w, acc);
+        }
     }
     // every truncation offset, every single-bit flip, digit/space/newline substitution at every offset
     for len in 0..bytes.len() {
